@@ -241,6 +241,41 @@ def gen_address(run):
             run.traces_validated += 1
 
 
+def gen_colarea(run):
+    """COLUMN over areas of several columns: the formula cell holds the first column's number (also as an operand), and the cells beside it
+    keep their own content (constants and a formula that reads them)"""
+    r = run.tlc('Gen_C14', ['INIT Init', 'NEXT Next', 'CONSTANT Kind = "COLAREA"', 'CONSTANT Keys = {10}', 'CONSTANT L = 1', 'CONSTANT Vals = {5}'],
+                workers=2, timeout=600, tag='Gen_C14_COLAREA')
+    for rec in r.records:
+        c1, c2, h, own = rec['c1'], rec['c2'], rec['h'], rec['own'] - 1
+        ref = f'{repo.col_letters(c1)}1:{repo.col_letters(c2)}{h}'
+        cells = {(own, 4): f'=COLUMN({ref})', (own, 5): f'=COLUMN({ref})+1', (own, 6): f'=SUM(COLUMN({ref}),COLUMN({ref}))'}
+        beside = {}
+        for k in range(1, 5):
+            for row in (4, 5, 6):
+                beside[(own + k, row)] = 1000 * row + 10 * k
+        cells.update(beside)
+        total = sum(beside.values())
+        cells[(9, 0)] = f'=SUM({repo.col_letters(own + 2)}5:{repo.col_letters(own + 5)}7)'
+        want = [((own, 4), rec['col']), ((own, 5), rec['col'] + 1), ((own, 6), 2 * rec['col'])] + sorted(beside.items()) + [((9, 0), total)]
+        # both translation orders: the whole workbook, and entry points (the reader of the neighbours first)
+        excel = repo.mem_excel([('S', cells)])
+        outs = {}
+        try:
+            klass = repo.load_class(repo.translate_file(excel)[0])
+            ex = repo.fresh_executor(klass)
+            outs['file'] = [ex.get_cell(repo.Cell(0, c[0], c[1])).value for c, _ in want]
+        except Exception as e:   # noqa
+            outs['file'] = f'raises {type(e).__name__}: {e}'[:120]
+        for tag, got in outs.items():
+            ok = isinstance(got, list) and all(g == w and not isinstance(g, bool) for g, (_, w) in zip(got, want))
+            bad = got if not isinstance(got, list) else [(f'{repo.col_letters(c[0] + 1)}{c[1] + 1}', g, w) for g, (c, w) in zip(got, want) if g != w]
+            run.judge({'in': {'formula': cells[(own, 4)], 'own_column': own + 1, 'mode': 'colarea', 'rec': rec}, 'ideal': rec['col'], 'obs': str(bad)[:300], 'kind': 'colarea'}, ok,
+                      clause=f'=COLUMN({ref}) (+1, summed twice) in column {repo.col_letters(own + 1)}, rows 5..7, constants beside: (cell, got, expected) {bad}', part='colarea',
+                      nontrivial=c2 > c1)
+            run.traces_validated += 1
+
+
 # ---------------------------------------------------------------- direction B
 def _trace_job(seeds):
     try:
@@ -343,6 +378,7 @@ def check(run):
     gen_lookup(run)
     gen_index(run)
     gen_address(run)
+    gen_colarea(run)
     trace(run)
     public_path(run)
 
